@@ -300,8 +300,17 @@ func Run(dir, tier string, seed int64) error {
 				checkEnveloped("metadata", rep.Body, "EntityDescriptor", metaCert, desc())
 			}
 			// ---- Redirect binding: the SAML HTTP-Redirect verification procedure on the URL actually sent
-			for _, acs := range []string{"https://sp.example/acs/redirect", "https://sp.example/acs?x=1"} {
-				st.Requests["r2"] = &idp.AuthReq{ID: "r2", AppID: "app-1", RelayState: h, ACS: acs, Binding: idp.RedirBinding, AuthReqID: h + "#req", UserID: "u1", IsDone: true}
+			acsShapes := []string{"https://sp.example/acs/redirect", "https://sp.example/acs?x=1"}
+			if hi < 3 {
+				// consumer URLs whose own query uses the names of the signed parameters, with and without a RelayState of the message
+				acsShapes = append(acsShapes, "https://sp.example/acs?RelayState=from-the-consumer-url", "https://sp.example/acs?a=1&SigAlg=x&b=2")
+			}
+			for ci, acs := range acsShapes {
+				relay := h
+				if ci == 2 && hi%2 == 0 {
+					relay = ""
+				}
+				st.Requests["r2"] = &idp.AuthReq{ID: "r2", AppID: "app-1", RelayState: relay, ACS: acs, Binding: idp.RedirBinding, AuthReqID: h + "#req", UserID: "u1", IsDone: true}
 				rep := env.Do(idp.ReqSpec{Method: http.MethodGet, Path: "/login", Query: []idp.Param{idp.Q("id", "r2")}}.HTTP())
 				run.Res.Evaluations++
 				run.Count("redirect")
@@ -311,8 +320,10 @@ func Run(dir, tier string, seed int64) error {
 				}
 				loc := rep.Location
 				q := loc[len(acs)+1:]
+				// a verifier sees the query of the whole URL (everything after the first '?'), first occurrence of each name
+				whole := loc[strings.IndexByte(loc, '?')+1:]
 				raw := map[string]string{}
-				for _, seg := range strings.Split(q, "&") {
+				for _, seg := range strings.Split(whole, "&") {
 					if k, v, ok := strings.Cut(seg, "="); ok {
 						if _, dup := raw[k]; !dup {
 							raw[k] = v
@@ -345,11 +356,24 @@ func Run(dir, tier string, seed int64) error {
 				}
 				if _, has := raw["Signature"]; !has {
 					fail("redirect-response-unsigned", "the redirect URL of a Success response carries no Signature parameter", d)
+				} else if (verr != nil || sigAlg != alg) && ci >= 2 {
+					fail("redirect-signature-invalid:consumer-url-query-names-signed-parameter", fmt.Sprintf("the consumer URL's own query contains a parameter named like one of the signed ones; a verifier reading the whole query of the URL sent takes that value (first occurrence): %v", verr), d)
 				} else if verr != nil || sigAlg != alg {
 					fail("redirect-signature-invalid", fmt.Sprintf("the signature does not verify over the octets SAML Bindings 3.4.4.1 prescribes for the URL sent: %v", verr), d)
 				}
-				resp, _ := url.QueryUnescape(raw["SAMLResponse"])
-				run.AddCase(id, fmt.Sprintf("KRedirect %s %s %s %s %s %s", coqgen.Z(int64(id)), coqgen.Bytes(resp), coqgen.Bytes(h), coqgen.Bytes(sigAlg), coqgen.Bytes(sigB64), coqgen.Bytes(q)), d)
+				// the model is compared on the part the IdP appended (its own parameters)
+				built := map[string]string{}
+				for _, seg := range strings.Split(q, "&") {
+					if k, v, ok := strings.Cut(seg, "="); ok {
+						if _, dup := built[k]; !dup {
+							built[k] = v
+						}
+					}
+				}
+				resp, _ := url.QueryUnescape(built["SAMLResponse"])
+				bAlg, _ := url.QueryUnescape(built["SigAlg"])
+				bSig, _ := url.QueryUnescape(built["Signature"])
+				run.AddCase(id, fmt.Sprintf("KRedirect %s %s %s %s %s %s", coqgen.Z(int64(id)), coqgen.Bytes(resp), coqgen.Bytes(relay), coqgen.Bytes(bAlg), coqgen.Bytes(bSig), coqgen.Bytes(q)), d)
 				run.Distinct(fmt.Sprintf("redirect/%d/%v", hi, verr == nil))
 				id++
 			}
